@@ -137,6 +137,13 @@ type jsonRPCEnvelope struct {
 	Method  string          `json:"method,omitempty"`
 }
 
+// sseResponseKey identifies a pending server-to-client request: request ids are scoped to the
+// session the request was sent to, so only that session's answer can match.
+type sseResponseKey struct {
+	sessionID string
+	requestID uint64
+}
+
 // SSEServer implements a Server-Sent Events (SSE) based MCP server.
 type SSEServer struct {
 	mcpHandler           *mcpHandler                                                // MCP handler.
@@ -155,8 +162,7 @@ type SSEServer struct {
 	keepAliveInterval    time.Duration                                              // Keep-alive interval.
 	logger               Logger                                                     // Logger for this server.
 	requestID            atomic.Int64                                               // Request ID counter for generating unique request IDs.
-	responses            map[uint64]interface{}                                     // Map for storing response channels.
-	responseSessions     map[uint64]string                                          // Session each pending request was sent to.
+	responses            map[sseResponseKey]interface{}                             // Map for storing response channels.
 	responsesMu          sync.RWMutex                                               // Mutex for responses map.
 	notificationHandlers map[string]ServerNotificationHandler                       // Map of notification handlers by method name.
 	notificationMu       sync.RWMutex                                               // Mutex for notification handlers map.
@@ -204,8 +210,7 @@ func NewSSEServer(name, version string, opts ...SSEOption) *SSEServer {
 		keepAlive:            true,
 		keepAliveInterval:    30 * time.Second,
 		logger:               GetDefaultLogger(),
-		responses:            make(map[uint64]interface{}),
-		responseSessions:     make(map[uint64]string),
+		responses:            make(map[sseResponseKey]interface{}),
 		notificationHandlers: make(map[string]ServerNotificationHandler),
 	}
 
@@ -745,19 +750,17 @@ func (s *SSEServer) handleResponseMessage(ctx context.Context, rawMessage json.R
 	}
 
 	// Get the response channel.
+	// Only the session the request was sent to may answer it: the entry is keyed by session and id.
+	if session == nil {
+		s.logger.Errorf("Ignoring response for request ID %d without a session", requestIDUint)
+		return
+	}
 	s.responsesMu.RLock()
-	responseChanInterface, exists := s.responses[requestIDUint]
-	addressee := s.responseSessions[requestIDUint]
+	responseChanInterface, exists := s.responses[sseResponseKey{session.sessionID, requestIDUint}]
 	s.responsesMu.RUnlock()
 
 	if !exists {
 		s.logger.Debugf("Received response for unknown request ID: %d", requestIDUint)
-		return
-	}
-
-	// Only the session the request was sent to may answer it.
-	if session == nil || session.sessionID != addressee {
-		s.logger.Errorf("Ignoring response for request ID %d from a session it was not sent to", requestIDUint)
 		return
 	}
 
@@ -990,19 +993,17 @@ func (s *SSEServer) handleRootsListResponse(request *JSONRPCRequest, session *ss
 	}
 
 	// Get the response channel.
+	// Only the session the request was sent to may answer it: the entry is keyed by session and id.
+	if session == nil {
+		s.logger.Errorf("Ignoring response for request ID %d without a session", requestIDUint)
+		return
+	}
 	s.responsesMu.RLock()
-	responseChanInterface, exists := s.responses[requestIDUint]
-	addressee := s.responseSessions[requestIDUint]
+	responseChanInterface, exists := s.responses[sseResponseKey{session.sessionID, requestIDUint}]
 	s.responsesMu.RUnlock()
 
 	if !exists {
 		s.logger.Debugf("Received response for unknown request ID: %d", requestIDUint)
-		return
-	}
-
-	// Only the session the request was sent to may answer it.
-	if session == nil || session.sessionID != addressee {
-		s.logger.Errorf("Ignoring response for request ID %d from a session it was not sent to", requestIDUint)
 		return
 	}
 
@@ -1378,22 +1379,18 @@ func (s *SSEServer) SendRequest(ctx context.Context, sessionID string, request *
 	resultChan := make(chan *json.RawMessage, 1)
 
 	// Store the channel in the responses map.
+	responseKey := sseResponseKey{sessionID, requestIDUint}
 	s.responsesMu.Lock()
 	if s.responses == nil {
-		s.responses = make(map[uint64]interface{})
+		s.responses = make(map[sseResponseKey]interface{})
 	}
-	s.responses[requestIDUint] = resultChan
-	if s.responseSessions == nil {
-		s.responseSessions = make(map[uint64]string)
-	}
-	s.responseSessions[requestIDUint] = sessionID
+	s.responses[responseKey] = resultChan
 	s.responsesMu.Unlock()
 
 	// Clean up the response channel when done
 	defer func() {
 		s.responsesMu.Lock()
-		delete(s.responses, requestIDUint)
-		delete(s.responseSessions, requestIDUint)
+		delete(s.responses, responseKey)
 		s.responsesMu.Unlock()
 	}()
 
